@@ -130,6 +130,56 @@ def spaces(tier, variant, seed):
                 ot.run(ot.OPS["mpz_root"], (u, n), R=R)
         return (al.nl(abs(u)), al.sgn(u), bool(r[2]) if r else None, u % 64 if u > 0 else 0)
 
+    # s^2 + 2^j and s^2 - 2^j for EVERY bit position j below the size of s^2: the remainder is a single bit anywhere, in particular
+    # exactly a power of the limb base (carry limb of the remainder set, low limbs zero)
+    SJ = [1, 3, (1 << 31) + 5, (1 << 32) - 1, H - 1, M, (1 << 64) + 1, (H << 64) | 1, al.ones(2), al.PAT(3)["dense"] | 1, al.ones(3), (1 << 191) + 1, al.PAT(5)["dense"], al.ones(6)]
+
+    def sj_cases(blk):
+        si = blk
+        s_ = SJ[si]
+        sq = s_ * s_
+        for j in range(0, sq.bit_length()):
+            yield (sq + (1 << j),)
+            if sq - (1 << j) > 0:
+                yield (sq - (1 << j),)
+
+    f_nsqrtrem0 = lib.fn("mpn_sqrtrem", c_long, P, P, P, c_long)
+    f_npsq = lib.fn("mpn_perfect_square_p", c_int, P, c_long)
+    _sja = {}
+
+    def sj_one(case, R):
+        (u,) = case
+        set_cfg()
+        ot.run(ot.OPS["mpz_sqrtrem"], (u,), R=R)
+        ot.run(ot.OPS["mpz_sqrt"], (u,), R=R)
+        ot.run(ot.OPS["mpz_perfect_square_p"], (u,), R=R)
+        # mpn level with and without a remainder pointer
+        n = al.nl(u)
+        A = _sja.get("a")
+        if A is None:
+            A = _sja["a"] = mo.Arena(256)
+        G = mo.G
+        sn = (n + 1) // 2
+        tot = 4 * G + 2 * n + sn
+        A.reset(tot)
+        A.put(G, u, n)
+        r_ = math.isqrt(u)
+        rem = u - r_ * r_
+        ret = f_nsqrtrem0(A.addr(2 * G + n), None, A.addr(G), n)
+        if A.get(2 * G + n, sn) != r_ or (ret != 0) != (rem != 0):
+            R.fail("mpn_sqrtrem", "u=%x without remainder pointer: root %s, returned %d for a remainder that is %s" % (u, "ok" if A.get(2 * G + n, sn) == r_ else "WRONG", ret, "zero" if rem == 0 else "non-zero"))
+        ret = f_nsqrtrem0(A.addr(2 * G + n), A.addr(3 * G + n + sn), A.addr(G), n)
+        if A.get(2 * G + n, sn) != r_ or ret != al.nl(rem) or (ret and A.get(3 * G + n + sn, ret) != rem):
+            R.fail("mpn_sqrtrem", "u=%x with remainder pointer: root/remainder/size wrong (returned %d)" % (u, ret))
+        if (f_npsq(A.addr(G), n) != 0) != (rem == 0):
+            R.fail("mpn_perfect_square_p", "u=%x: answered %d" % (u, f_npsq(A.addr(G), n)))
+        if A.get(G, n) != u:
+            R.fail("mpn_sqrtrem", "input modified")
+        return (n, rem.bit_length() % 64 == 1, rem == 0)
+
+    sp.append(Space("sqrt_single_bit_remainders", list(range(len(SJ))), sj_cases, sj_one,
+                    "s^2 +- 2^j for every bit position j, s from 14 shapes (1..6 limbs): mpz_sqrt/sqrtrem/perfect_square_p, mpn_sqrtrem with and without remainder pointer, mpn_perfect_square_p"))
+
     NJ = 40 if quick else 100
     if variant == "asan":
         NJ = 20
